@@ -47,8 +47,12 @@ def run(ctx):
         if not diffs:
             ctx.ok(R, "preprocess/equivalent-to-reference", "no distinguishing string exists: %d product configurations, %d macro transitions explored over alphabet %s" % (stats["product_configurations"], stats["macro_transitions"], stats["alphabet"]), site(PL, fn))
     c04_units.rule_single_reader(ctx, "C05.2")
+    c04_units.rule_raw_text_readers(ctx, "C05.2")
     import c04
     import dropflow
 
     ctx.include("C05.3", "errors raised for a file are located in the text the parser saw: explicit ranges of parse errors are token positions of the stripped text, which has the length of the original (shared with C04.7)", c04.rule_explicit_ranges)
     ctx.include("C05.4", "the `unterminated comment` error of a file reaches the report collection on every path (shared with C02.10)", lambda c: dropflow.rule_consumed(c, "C02.10"), only=["parse_file", "parse_files", "preprocess", "floor"])
+    import c02
+
+    ctx.include("C05.5", "an unterminated comment is reported as an error (so that no level filter hides that the file was not analysed; shared with C02.7)", c02.rule_drop_is_error, only=["UnclosedCommentError", "floor"])
